@@ -540,7 +540,18 @@ def check_edit_window(ctx):
         from ..guards import literals
         seen_txt = set()
         for _, e, pol in literals(c):
-            if not isinstance(e, ast.Compare) or _is_comp_call(e) is not None or U(e) in seen_txt:
+            cc = _is_comp_call(e)
+            if cc is not None and U(e) not in seen_txt and 'get_sim_function' not in U(cc[1]):
+                # the requested operator applied to something that is not the distance: pruning must not depend on
+                # the operator (|len(l) - len(r)| = t does not follow from distance = t)
+                seen_txt.add(U(e))
+                n += 1
+                ctx.check('R-VERIFY/length-window', f, 'operator on %s' % U(cc[1])[:40], False,
+                          'the requested comparison operator is applied to `%s`, which is not the edit distance: a pair is '
+                          'pruned by `%s` although only |len(l)-len(r)| <= threshold follows from a qualifying distance'
+                          % (U(cc[1])[:80], U(e)[:100]), sink)
+                continue
+            if not isinstance(e, ast.Compare) or cc is not None or U(e) in seen_txt:
                 continue
             seen_txt.add(U(e))
             names = [x.id.split('@')[0] for x in ast.walk(e) if isinstance(x, ast.Name)]
@@ -550,22 +561,38 @@ def check_edit_window(ctx):
             parts = [e.left] + list(e.comparators)
             L = [p for p in parts if expr_side(p) == 'L']
             R = [p for p in parts if expr_side(p) == 'R']
-            if len(L) != 1 or len(R) != 1:
-                continue
-            n += 1
-            lt, rt = U(L[0]), U(R[0])
-            l_atom = [x for x in ast.walk(L[0]) if isinstance(x, (ast.Subscript, ast.Call, ast.Name)) and expr_side(x) == 'L']
-            # reference window over the same two length expressions, threshold stripped from each side
             import re
-            lsym = re.sub(r'\s*[-+]\s*threshold', '', lt)
-            rsym = re.sub(r'\s*[-+]\s*threshold', '', rt)
+            if len(L) == 1 and len(R) == 1:
+                lt, rt = U(L[0]), U(R[0])
+                # reference window over the same two length expressions, threshold stripped from each side
+                lsym = re.sub(r'\s*[-+]\s*threshold', '', lt)
+                rsym = re.sub(r'\s*[-+]\s*threshold', '', rt)
+            else:
+                # both lengths inside one operand (abs(l - r) <= threshold, l - r <= threshold, ...): the maximal
+                # one-sided sub-expressions are the two lengths
+                def atoms(x, out):
+                    sd = expr_side(x)
+                    if sd in ('L', 'R') and not isinstance(x, (ast.BinOp, ast.UnaryOp)):
+                        out.append((sd, x))
+                        return
+                    for ch in ast.iter_child_nodes(x):
+                        if isinstance(ch, ast.expr):
+                            atoms(ch, out)
+                found = []
+                atoms(e, found)
+                ls = sorted(set(U(x) for sd, x in found if sd == 'L'))
+                rs = sorted(set(U(x) for sd, x in found if sd == 'R'))
+                if len(ls) != 1 or len(rs) != 1:
+                    continue
+                lsym, rsym = ls[0], rs[0]
+            n += 1
             ref = to_formula(parse_expr('(%s) - threshold <= (%s) <= (%s) + threshold' % (rsym, lsym, rsym)))
             uni = Universe()
             w = uni.implies(ref, ('lit', e, pol))
             ctx.check('R-VERIFY/length-window', f, 'window atom %d' % n, w is None,
                       'the length filter `%s` rejects pairs inside |len(l)-len(r)| <= threshold (e.g. %s): qualifying '
                       'pairs are lost' % (U(e)[:100], w), sink, sample=U(e)[:100])
-    ctx.floor('R-VERIFY/length-window', n, 2, 'length-window comparisons')
+    ctx.floor('R-VERIFY/length-window', n, 1, 'length-window comparisons')
     # threshold handed to the worker is int(floor(threshold))
     jpath, jqual, _, _ = JOINS['edit_distance']
     j = repo.fn(jpath, jqual)
@@ -630,6 +657,27 @@ def check_ni(ctx):
                 ok = True
             elif isinstance(par, ast.keyword) and par.arg == 'comp_op':
                 ok = True
+            elif isinstance(par, (ast.Tuple, ast.List)) and isinstance(parents.get(id(par)), ast.Assign):
+                # an argument pack: a tuple bound once and only ever splatted into calls; each such call must bind this
+                # element to the callee's comp_op parameter
+                asg = parents.get(id(par))
+                nm = asg.targets[0].id if len(asg.targets) == 1 and isinstance(asg.targets[0], ast.Name) else None
+                loads = [x for x in walk_own(f.node) if isinstance(x, ast.Name) and x.id == nm and isinstance(x.ctx, ast.Load)] if nm else []
+                ok = bool(loads)
+                for x in loads:
+                    px = parents.get(id(x))
+                    call = parents.get(id(px)) if isinstance(px, ast.Starred) else None
+                    if not isinstance(call, ast.Call):
+                        ok = False
+                        break
+                    r = repo.resolve_call(f, call)
+                    if r is None:
+                        ok = False
+                        break
+                    ps = [p_ for p_, a in r[2].items() if a is n]
+                    if not (ps and all(p_ == 'comp_op' for p_ in ps)):
+                        ok = False
+                        break
             ctx.check('R-NI/flow', f, '%s in %s' % (U(n), why[:50]), ok,
                       'the comparison operator `%s` flows into `%s`: candidates/bounds may only depend on the threshold, '
                       'the operator is applied at verification' % (U(n), why), n, nontrivial=True,
